@@ -120,15 +120,9 @@ Definition fallback (jstart : justify) (free : Q) (j : justify) : justify :=
   then match j with JBetween => jstart | JAround | JEvenly => JCenter | x => x end
   else j.
 
-(* the code: the fallback of space-between is ('flex-start',), read after the *-reverse swap, i.e. JStart *)
-Definition justify_line (j : justify) (origin W gap : Q) (line : list jitem) : list placed :=
-  let (line1, free) := margins_line (jfree W gap line) line in
-  let j' := fallback JStart free j in
-  let n := length line in
-  place_loop gap (between j' free n) true (origin + lead j' free n) line1.
-
-(* css-flexbox 9.5 / 8.2 reference *)
-Definition justify_css (reverse : bool) (j : justify) (origin W gap : Q) (line : list jitem) : list placed :=
+(* step 12 for one line; `reverse` = flex-direction ends with -reverse (the overflow fallback of space-between
+   is flex-start, i.e. ('flex-end',) in the left-to-right frame of a reversed line) *)
+Definition justify_line (reverse : bool) (j : justify) (origin W gap : Q) (line : list jitem) : list placed :=
   let (line1, free) := margins_line (jfree W gap line) line in
   let j' := fallback (if reverse then JEnd else JStart) free j in
   let n := length line in
